@@ -372,8 +372,6 @@ def check_1d_index(rec: core.Recorder, *, op: str, pre: dict, index, result, exc
             return  # empty selections may be refused
         if isinstance(index, np.ndarray) and (index.size == 0 or (index.dtype == bool and not index.any())):
             return
-        if unordered:
-            return
         fail(f"valid index expression refused: {type(exc).__name__}", ["raised"], error=str(exc)[:120])
         return
     if isinstance(index, (int, np.integer)):
@@ -387,8 +385,7 @@ def check_1d_index(rec: core.Recorder, *, op: str, pre: dict, index, result, exc
     r = snap.snapshot(result)
     idx = index
     mech = None
-    if unordered:
-        mech = "1d.index_array.unsorted"
+    if isinstance(index, np.ndarray) and index.dtype.kind in "iu":
         idx = np.unique(np.where(index < 0, index + n, index))  # "index arrays are taken in increasing order"
     eb, ef, ee = bins[idx], f[idx], e[idx]
     rb = snap.arr_values(r["bins"][0]) if isinstance(r["bins"], list) else None
